@@ -342,3 +342,86 @@ Example narrowest_cidr_example :
   process nest_env (nest_q [192;168;5;9]) empty_store = empty_store /\
   st_mem (process nest_env (nest_q [192;168;7;9]) empty_store) = [([111;107], [192;168;7;9], [])].
 Proof. repeat split; vm_compute; reflexivity. Qed.
+
+(** * Round 8 (O): a runtime record never hides an ignored persistent client *)
+(** For the id lists the program builds (the address, preceded by the ClientID
+    if there is one; the same shape on the search side), whatever the runtime
+    index holds: the finder of the query log gives the flag of the persistent
+    client, as if there were no runtime records. *)
+Lemma find_multiple_addr ix dhcp rt a :
+  find_multiple ix dhcp rt [IdAddr a] = qlog_client_ignored ix dhcp [IdAddr a].
+Proof.
+  unfold qlog_client_ignored. cbn [find_multiple first_client]. unfold client_or_artificial.
+  destruct (find_loose ix dhcp (IdAddr a)) as [u|]; [destruct (deref ix u); [reflexivity|]|];
+    destruct (rt a); reflexivity.
+Qed.
+
+Theorem runtime_record_never_hides ix dhcp rt q :
+  find_multiple ix dhcp rt (ids_of q) = qlog_client_ignored ix dhcp (ids_of q).
+Proof.
+  unfold ids_of. destruct (q_cid q) as [|b c]; [apply find_multiple_addr|].
+  pose proof (find_multiple_addr ix dhcp rt (q_addr q)) as H.
+  unfold qlog_client_ignored in *. cbn [find_multiple first_client] in *. unfold client_or_artificial in *.
+  destruct (find_loose ix dhcp (IdCid (b :: c) (q_cid_mac q))) as [u|]; [destruct (deref ix u); [reflexivity|]|]; exact H.
+Qed.
+
+Theorem runtime_record_never_hides_stored ix dhcp rt mac_of e :
+  find_multiple ix dhcp rt (stored_ids mac_of e) = qlog_client_ignored ix dhcp (stored_ids mac_of e).
+Proof.
+  destruct e as [[n ip] cid]. unfold stored_ids.
+  destruct cid as [|b c], ip as [|x ip]; cbn [app]; try reflexivity; try apply find_multiple_addr.
+  - unfold qlog_client_ignored. cbn [find_multiple first_client]. unfold client_or_artificial.
+    destruct (find_loose ix dhcp (IdCid (b :: c) (mac_of (b :: c)))) as [u|]; [destruct (deref ix u)|]; reflexivity.
+  - pose proof (find_multiple_addr ix dhcp rt (canon_ip (x :: ip), [])) as H.
+    unfold qlog_client_ignored in *. cbn [find_multiple first_client] in *. unfold client_or_artificial in *.
+    destruct (find_loose ix dhcp (IdCid (b :: c) (mac_of (b :: c)))) as [u|]; [destruct (deref ix u); [reflexivity|]|]; exact H.
+Qed.
+
+(** The variant that asks the runtime index first (a single map lookup
+    before the walk over subnets and leases): refuted. *)
+Definition client_or_artificial_rt_first (ix : index) dhcp (rt : addr -> bool) (i : id) : found :=
+  match i with
+  | IdAddr a => if rt a then FRuntime else client_or_artificial ix dhcp (fun _ => false) i
+  | IdCid _ _ => client_or_artificial ix dhcp rt i
+  end.
+Fixpoint find_multiple_rt_first (ix : index) dhcp (rt : addr -> bool) (ids : list id) : bool :=
+  match ids with
+  | [] => false
+  | i :: rest =>
+      match client_or_artificial_rt_first ix dhcp rt i with
+      | FPersistent c => c_ignore_qlog c
+      | FRuntime => false
+      | FArtificial => find_multiple_rt_first ix dhcp rt rest
+      end
+  end.
+
+Example runtime_first_refuted :
+  let rt := fun a : addr => addr_eqb a ([192;168;5;9], []) in
+  qlog_client_ignored nest_ix (fun _ => None) (ids_of (nest_q [192;168;5;9])) = true /\
+  find_multiple nest_ix (fun _ => None) rt (ids_of (nest_q [192;168;5;9])) = true /\
+  find_multiple_rt_first nest_ix (fun _ => None) rt (ids_of (nest_q [192;168;5;9])) = false.
+Proof. repeat split; vm_compute; reflexivity. Qed.
+
+(** * Round 8 (P): the statistics ignore list in force is the last accepted one *)
+Theorem stats_ignore_list_follows_last_put puts c e l :
+  sconf_run (puts ++ [(e, l)]) c = {| sc_enabled := e; sc_ignored := l |}.
+Proof. unfold sconf_run. rewrite fold_left_app. reflexivity. Qed.
+
+(** Disabled statistics record nothing; the log side is not affected. *)
+Lemma process_gated_off ev q st :
+  st_stats (process_gated false ev q st) = st_stats st /\ st_units (process_gated false ev q st) = st_units st /\
+  st_mem (process_gated false ev q st) = st_mem (process ev q st).
+Proof. repeat split. Qed.
+Lemma process_gated_on ev q st : process_gated true ev q st = process ev q st.
+Proof. reflexivity. Qed.
+
+(** The variant that replaces the engine only while the statistics were
+    enabled BEFORE the request: one request that enables them and changes the
+    list keeps the old list. *)
+Definition sconf_put_guarded (enabled : bool) (ignored : list bytes) (c : sconf) : sconf :=
+  {| sc_enabled := enabled; sc_ignored := if sc_enabled c then ignored else sc_ignored c |}.
+Example guarded_put_refuted :
+  let c0 := {| sc_enabled := true; sc_ignored := [[97]] |} in
+  sc_ignored (sconf_put_guarded true [[98]] (sconf_put_guarded false [[97]] c0)) = [[97]] /\
+  sc_ignored (sconf_run [(false, [[97]]); (true, [[98]])] c0) = [[98]].
+Proof. split; reflexivity. Qed.
